@@ -45,6 +45,38 @@ def structure_case(ctx):
     return out, {'nx': nx, 'nu': nu, 'rho': str(rho)}
 
 
+def dmdc_structure_case(ctx):
+    """LmiDmdcSpectralRadiusConstr: the real sub-problems on dyadic SVD factors; the base block (shared with LmiDmdc) and
+    the spectral-radius blocks on A_hat = U_hat[:, :r_hat]"""
+    rng = ctx.rng
+    f = lc.dmdc_factors(rng)
+    rh, pu, q = f['rh'], f['pu'], f['q']
+    rho = rng.choice([Fraction(1, 2), Fraction(3, 4), Fraction(1), Fraction(9, 8)])
+    reg = lmi.LmiDmdcSpectralRadiusConstr(spectral_radius=float(rho), alpha=q * f['alpha'], picos_eps=0,
+                                          solver_params=dict(lc.SOLVER))
+    P = lc.dyadic(rng, (rh, rh))
+    if rng.random() < 0.7:
+        P = (P + P.T) / 2
+    Uh = lc.dyadic(rng, (rh, rh + pu), den=2)
+    W = lc.dyadic(rng, (rh, rh), den=2); W = (W + W.T) / 2
+    pa = reg._create_problem_a(*lc.dmdc_args(f), P)
+    pa.variables['U_hat'].value = Uh
+    pa.variables['W_hat'].value = W
+    blocks = lc.constraint_blocks(pa)
+    out = []
+    if len(blocks) != 3:
+        return [('bad', np.zeros((1, 1)), f'Dmdc problem A has {len(blocks)} constraints, expected 3')], lc.dmdc_tag(f)
+    out.append((lc.dmdc_line(f, W, Uh), blocks[1][0], 'Dmdc problem A (base block)'))
+    out.append((f"specA {rh} {lc.fr(rho)} {lc.mat_tok(P)} {lc.mat_tok(Uh[:, :rh])}", blocks[2][0], 'Dmdc problem A'))
+    Ps = (P + P.T) / 2
+    pb = reg._create_problem_b(Uh)
+    pb.variables['P'].value = Ps
+    blocks = lc.constraint_blocks(pb)
+    lhs = [b for b in blocks if b[0].shape == (2 * rh, 2 * rh)][-1][0]
+    out.append((f"specB {rh} {lc.fr(rho)} {lc.mat_tok(Ps)} {lc.mat_tok(Uh[:, :rh])}", lhs, 'Dmdc problem B'))
+    return out, dict(lc.dmdc_tag(f), rho=str(rho))
+
+
 def oracle_fit(ctx, thorough, forced=None):
     """end-to-end with cvxopt: eigenvalues of the returned A within the bound, objective log non-increasing"""
     rng = ctx.rng
@@ -59,14 +91,21 @@ def oracle_fit(ctx, thorough, forced=None):
     fam = rng.choice(['edmd', 'dmdc'])
     if forced is not None and len(forced) > 2:
         fam = forced[2]
+    sp = dict(lc.SOLVER)
+    cap = None
+    if forced is not None and len(forced) > 3:
+        # a solver that is stopped early: sub-problems end 'non-optimal' and whatever the fit returns must still be a
+        # matrix that satisfied the constraint (the last optimal U, or zero)
+        cap = forced[3]
+        sp['max_iterations'] = cap
     if fam == 'edmd':
         reg = lmi.LmiEdmdSpectralRadiusConstr(spectral_radius=rho, max_iter=max_iter, alpha=rng.choice([0, 0.1]),
-                                              inv_method=rng.choice(['svd', 'chol']), solver_params=dict(lc.SOLVER))
+                                              inv_method=rng.choice(['svd', 'chol']), solver_params=sp)
     else:
         reg = lmi.LmiDmdcSpectralRadiusConstr(spectral_radius=rho, max_iter=max_iter, alpha=rng.choice([0, 0.1]),
-                                              solver_params=dict(lc.SOLVER))
+                                              solver_params=sp)
     case = {'family': fam, 'nx': nx, 'nu': nu, 'rho': rho, 'max_iter': max_iter, 'data_radius': radius,
-            'X': X.tolist()}
+            'solver_max_iterations': cap, 'X': X.tolist()}
     try:
         reg.fit(X, **kw)
     except Exception as ex:
@@ -99,6 +138,11 @@ def run(ctx):
     la_lines, la_meta = [], []
     for i in range(ctx.n(25, 300)):
         items, tag = structure_case(ctx)
+        for line, lhs, what in items:
+            la_lines.append(line)
+            la_meta.append((lhs, what, tag))
+    for i in range(ctx.n(15, 200)):
+        items, tag = dmdc_structure_case(ctx)
         for line, lhs, what in items:
             la_lines.append(line)
             la_meta.append((lhs, what, tag))
@@ -151,7 +195,8 @@ def run(ctx):
                          np.asarray(reg.P_).tolist(), [pi, wantP.tolist()])
     # (iii) end to end
     sweeps = [(rho, rad, fam) for rho in (1.1, 1.2) for rad in (1.4,) for fam in ('edmd', 'dmdc')] + \
-             [(0.7, 1.4, 'edmd'), (0.7, 1.4, 'dmdc')]
+             [(0.7, 1.4, 'edmd'), (0.7, 1.4, 'dmdc')] + \
+             [(rho, 1.4, fam, cap) for rho in (0.3, 0.5) for fam in ('edmd', 'dmdc') for cap in (4, 6)]
 
     def end_to_end(n, stop_at_first=False):
         for i in range(n + len(sweeps)):
